@@ -67,4 +67,264 @@ WITNESSES = [
     dict(id="c06-ok-new-refactor", prop="C06", file=S, expect=None,
          old="        if (sign_u + sign_l) % 2:\n            return - super().__new__(cls, name, upper, lower,\n                                     bra_ket_sym)\n        else:\n            return super().__new__(cls, name, upper, lower, bra_ket_sym)",
          new="        obj = super().__new__(cls, name, upper, lower, bra_ket_sym)\n        return -obj if (sign_u + sign_l) % 2 == 1 else obj"),
+    # ------------------------------------------------------------------ new kinds of behaviour-preserving refactorings
+    # guard written as set algebra instead of two membership tests
+    dict(id="c06-ok-makereal-set-difference", prop="C06", file=E, expect=None,
+         old="""        sym_tensors = self._sym_tensors
+        if tensor_names.fock not in sym_tensors or \\
+                tensor_names.eri not in sym_tensors:
+            self._sym_tensors.update([tensor_names.fock, tensor_names.eri])
+            self._apply_tensor_braket_sym()""",
+         new="""        missing = {tensor_names.fock, tensor_names.eri} - self._sym_tensors
+        if missing:
+            self._sym_tensors |= missing
+            self._apply_tensor_braket_sym()"""),
+    # copy, modify, compare and write back instead of in-place update behind a test
+    dict(id="c06-ok-makereal-copy-compare", prop="C06", file=E, expect=None,
+         old="""        sym_tensors = self._sym_tensors
+        if tensor_names.fock not in sym_tensors or \\
+                tensor_names.eri not in sym_tensors:
+            self._sym_tensors.update([tensor_names.fock, tensor_names.eri])
+            self._apply_tensor_braket_sym()""",
+         new="""        declared = self._sym_tensors.union((tensor_names.fock, tensor_names.eri))
+        if declared != self._sym_tensors:
+            self._sym_tensors = declared
+            self._apply_tensor_braket_sym()"""),
+    # independent statements reordered: the flag is set after the symmetry block and after the renaming
+    dict(id="c06-ok-makereal-flag-last", prop="C06", file=E, edits=[
+        ("        self._real = True\n        sym_tensors = self._sym_tensors\n", "        sym_tensors = self._sym_tensors\n"),
+        ("        if self.sympy.is_number:\n            return self\n        self._expr = Add(*[t.make_real(return_sympy=True)\n                           for t in self.terms])\n        return self",
+         "        self._real = True\n        if self.sympy.is_number:\n            return self\n        self._expr = Add(*[t.make_real(return_sympy=True)\n                           for t in self.terms])\n        return self")],
+         expect=None),
+    # union operator and conditional expression, equality test with early return
+    dict(id="c06-ok-setsym-union", prop="C06", file=E, expect=None,
+         old="""        sym_tensors: set = set(sym_tensors)
+        if self.real:
+            sym_tensors.update([tensor_names.fock, tensor_names.eri])
+        if sym_tensors != self._sym_tensors:
+            self._sym_tensors = sym_tensors
+            self._apply_tensor_braket_sym()""",
+         new="""        implied = {tensor_names.fock, tensor_names.eri} if self.real else set()
+        declared = set(sym_tensors) | implied
+        if declared == self._sym_tensors:
+            return
+        self._sym_tensors = declared
+        self._apply_tensor_braket_sym()"""),
+    # the target indices (independent of the tensor symmetry) are stored last
+    dict(id="c06-ok-init-target-last", prop="C06", file=E, edits=[
+        ("        self._target_idx: None | tuple[Index] = None\n        if target_idx is not None:\n            self.set_target_idx(target_idx)\n",
+         "        self._target_idx: None | tuple[Index] = None\n"),
+        ("        if real:\n            self.make_real()\n\n    def __str__(self):\n        return latex(self.sympy)\n\n    def __len__(self):\n        # 0 has length 1",
+         "        if real:\n            self.make_real()\n        if target_idx is not None:\n            self.set_target_idx(target_idx)\n\n    def __str__(self):\n        return latex(self.sympy)\n\n    def __len__(self):\n        # 0 has length 1")],
+         expect=None),
+    # product accumulated with the * operator, flag passed positionally
+    dict(id="c06-ok-term-accumulate", prop="C06", file=E, expect=None,
+         old="        real_term = Mul(*(o.make_real(return_sympy=True)\n                          for o in self.objects))",
+         new="        real_term = S.One\n        for factor in self.objects:\n            real_term = real_term * factor.make_real(True)"),
+    # ** operator instead of Pow, sum() with a start value instead of Add(*...)
+    dict(id="c06-ok-polynom-operators", prop="C06", file=E, expect=None,
+         old="        with_sym = Add(*[t._apply_tensor_braket_sym(return_sympy=True)\n                         for t in self.terms])\n        with_sym = Pow(with_sym, self.exponent)",
+         new="        with_sym = sum((t._apply_tensor_braket_sym(return_sympy=True)\n                        for t in self.terms), S.Zero) ** self.exponent"),
+    # table driven decision instead of if/elif
+    dict(id="c06-ok-obj-sym-table", prop="C06", file=E, expect=None,
+         old="""            bra_ket_sym = None
+            if (name := base.name) in self.sym_tensors and \\
+                    base.bra_ket_sym is not S.One:
+                bra_ket_sym = 1
+            elif name in self.antisym_tensors and \\
+                    base.bra_ket_sym is not S.NegativeOne:
+                bra_ket_sym = -1""",
+         new="""            bra_ket_sym = None
+            for declared, present, wanted in ((self.sym_tensors, S.One, 1),
+                                              (self.antisym_tensors, S.NegativeOne, -1)):
+                if base.name in declared and base.bra_ket_sym is not present:
+                    bra_ket_sym = wanted
+                    break"""),
+    # type(x) instead of x.__class__, argument tuple built by concatenation
+    dict(id="c06-ok-rename-type", prop="C06", file=E, expect=None,
+         old="""            if isinstance(base, AntiSymmetricTensor):
+                args = (new, base.upper, base.lower, base.bra_ket_sym)
+            elif isinstance(base, NonSymmetricTensor):
+                args = (new, base.indices)
+            else:
+                raise TypeError(f"Unknown tensor type {type(base)}.")
+            base = base.__class__(*args)""",
+         new="""            if isinstance(base, AntiSymmetricTensor):
+                index_args = (base.upper, base.lower, base.bra_ket_sym)
+            elif isinstance(base, NonSymmetricTensor):
+                index_args = (base.indices,)
+            else:
+                raise TypeError(f"Unknown tensor type {type(base)}.")
+            base = type(base)(*((new,) + index_args))"""),
+    # cascade of comparisons written as one lexicographic tuple comparison
+    dict(id="c06-ok-swap-tuple-compare", prop="C06", file=S, expect=None,
+         old="""        space_u = [s.space[0] for s in upper]
+        space_l = [s.space[0] for s in lower]
+        if space_l < space_u:  # space with more occ should be upper
+            return True
+        elif space_l == space_u:  # diagonal block
+            # compare the spin of both index blocks:
+            # space with more spin orbitals or alpha spin should be upper.
+            spin_u = [s.spin for s in upper]
+            spin_l = [s.spin for s in lower]
+            if spin_l < spin_u:
+                return True
+            elif spin_l == spin_u:  # diagonal spin block
+                # compare the names of indices
+                lower_names = [(int(s.name[1:]) if s.name[1:] else 0,
+                               s.name[0]) for s in lower]
+                upper_names = [(int(s.name[1:]) if s.name[1:] else 0,
+                               s.name[0]) for s in upper]
+                if lower_names < upper_names:
+                    return True
+        return False""",
+         new="""        def group_key(group):
+            return ([s.space[0] for s in group], [s.spin for s in group],
+                    [(int(s.name[1:] or 0), s.name[0]) for s in group])
+        return group_key(lower) < group_key(upper)"""),
+    # sign as arithmetic factor instead of a branch
+    dict(id="c06-ok-new-sign-factor", prop="C06", file=S, expect=None,
+         old="        if (sign_u + sign_l) % 2:\n            return - super().__new__(cls, name, upper, lower,\n                                     bra_ket_sym)\n        else:\n            return super().__new__(cls, name, upper, lower, bra_ket_sym)",
+         new="        return (-1) ** (sign_u + sign_l) * super().__new__(cls, name, upper, lower, bra_ket_sym)"),
+    # both groups sorted by one generator expression
+    dict(id="c06-ok-symnew-generator", prop="C06", file=S, expect=None,
+         old="        upper = sorted(upper, key=sort_idx_canonical)\n        lower = sorted(lower, key=sort_idx_canonical)\n        # account for the bra ket symmetry",
+         new="        upper, lower = (sorted(group, key=sort_idx_canonical) for group in (upper, lower))\n        # account for the bra ket symmetry"),
+    # direct comparison of the sort keys instead of min(..., key=)
+    dict(id="c06-ok-delta-key-compare", prop="C06", file=S, expect=None,
+         old="        if i != min(i, j, key=sort_idx_canonical):\n            return cls(j, i)",
+         new="        if sort_idx_canonical(j) < sort_idx_canonical(i):\n            return cls(j, i)"),
+    # guard clauses and type(self)
+    dict(id="c06-ok-addbks-guards", prop="C06", file=S, expect=None,
+         old="""        if bra_ket_sym == self.bra_ket_sym:
+            return self
+        elif self.bra_ket_sym is S.Zero:
+            return self.__class__(self.symbol, self.upper, self.lower,
+                                  bra_ket_sym)
+        else:
+            raise Inputerror(""",
+         new="""        present = self.bra_ket_sym
+        if bra_ket_sym == present:
+            return self
+        if present is S.Zero:
+            return type(self)(self.symbol, upper=self.upper, lower=self.lower,
+                              bra_ket_sym=bra_ket_sym)
+        if True:
+            raise Inputerror("""),
+    # sum() instead of the accumulation loop
+    dict(id="c06-ok-rename-sum", prop="C06", file=E, expect=None,
+         old="        renamed = 0\n        for t in self.terms:\n            renamed += t.rename_tensor(current, new, return_sympy=True)\n        self._expr = renamed",
+         new="        self._expr = sum(t.rename_tensor(current, new=new, return_sympy=True) for t in self.terms)"),
+    # the redundant early declaration of fock/eri in the constructor dropped (make_real declares and applies them)
+    dict(id="c06-ok-init-no-preadd", prop="C06", file=E, expect=None,
+         old="            if real:\n                self._sym_tensors.update([tensor_names.fock, tensor_names.eri])\n            self._apply_tensor_braket_sym()",
+         new="            self._apply_tensor_braket_sym()"),
+    # the class named explicitly instead of cls / super()
+    dict(id="c06-ok-delta-class-named", prop="C06", file=S, expect=None,
+         old="        if i != min(i, j, key=sort_idx_canonical):\n            return cls(j, i)",
+         new="        first, _ = sorted((i, j), key=sort_idx_canonical)\n        if first is not i:\n            return KroneckerDelta(j, i)"),
+    dict(id="c06-ok-new-extracted-classmethod", prop="C06", file=S, edits=[
+        ("""        bra_ket_sym = sympify(bra_ket_sym)
+        if bra_ket_sym is not S.Zero and \\
+                all(isinstance(s, Index) for s in upper+lower):
+            if bra_ket_sym not in [S.One, S.NegativeOne]:
+                raise Inputerror("Invalid bra ket symmetry given "
+                                 f"{bra_ket_sym}. Valid are 0, 1 or -1.")
+            if cls._need_bra_ket_swap(upper, lower):
+                upper, lower = lower, upper  # swap
+                if bra_ket_sym is S.NegativeOne:  # add another -1
+                    sign_u += 1
+        # import all quantities to sympy""",
+         """        bra_ket_sym = sympify(bra_ket_sym)
+        upper, lower, swapped = cls._bra_ket_canonical(upper, lower, bra_ket_sym)
+        if swapped and bra_ket_sym is S.NegativeOne:  # add another -1
+            sign_u += 1
+        # import all quantities to sympy"""),
+        ("""    @classmethod
+    def _need_bra_ket_swap(cls, upper: tuple[Index],
+                           lower: tuple[Index]) -> bool:""",
+         """    @classmethod
+    def _bra_ket_canonical(cls, upper, lower, bra_ket_sym):
+        # add the Index check for subs to work correctly
+        if bra_ket_sym is S.Zero or \\
+                not all(isinstance(s, Index) for s in upper+lower):
+            return upper, lower, False
+        if bra_ket_sym not in [S.One, S.NegativeOne]:
+            raise Inputerror("Invalid bra ket symmetry given "
+                             f"{bra_ket_sym}. Valid are 0, 1 or -1.")
+        if cls._need_bra_ket_swap(upper=upper, lower=lower):
+            return lower, upper, True
+        return upper, lower, False
+
+    @classmethod
+    def _need_bra_ket_swap(cls, upper: tuple[Index],
+                           lower: tuple[Index]) -> bool:""")], expect=None),
+    # dictionary merge instead of item assignment for the assumptions of the wrapper
+    dict(id="c06-ok-term-wrapper-dict-merge", prop="C06", file=E, expect=None,
+         old="        real_term = Mul(*(o.make_real(return_sympy=True)\n                          for o in self.objects))\n        if return_sympy:\n            return real_term\n        assumptions = self.assumptions\n        assumptions['real'] = True\n        return Expr(real_term, **assumptions)",
+         new="        real_term = Mul(*(o.make_real(return_sympy=True)\n                          for o in self.objects))\n        if return_sympy:\n            return real_term\n        return Expr(real_term, **{**self.assumptions, 'real': True})"),
+    # ------------------------------------------------------------------ breaking witnesses for the new checks
+    dict(id="c06-amplitude-own-ordering", prop="C06", file=S, expect=["R06a", "R06b"],
+         old="""    @property
+    def idx(self) -> tuple[Index]:
+        \"\"\"
+        Returns all indices of the amplitude. The lower indices are""",
+         new="""    @classmethod
+    def _need_bra_ket_swap(cls, upper, lower):
+        return False
+
+    @property
+    def idx(self) -> tuple[Index]:
+        \"\"\"
+        Returns all indices of the amplitude. The lower indices are"""),
+    dict(id="c06-sym-lower-unsorted", prop="C06", file=S, expect=["R06b", "R06c"],
+         old="        lower = sorted(lower, key=sort_idx_canonical)\n        # account for the bra ket symmetry", new="        lower = list(lower)\n        # account for the bra ket symmetry"),
+    dict(id="c06-swap-without-symmetry", prop="C06", file=S, expect=["R06b", "R06c"],
+         old="""        bra_ket_sym = sympify(bra_ket_sym)
+        if bra_ket_sym is not S.Zero and \\
+                all(isinstance(s, Index) for s in upper+lower):
+            if bra_ket_sym not in [S.One, S.NegativeOne]:
+                raise Inputerror("Invalid bra ket symmetry given "
+                                 f"{bra_ket_sym}. Valid are 0, 1 or -1.")
+            if cls._need_bra_ket_swap(upper, lower):
+                upper, lower = lower, upper  # swap
+                if bra_ket_sym is S.NegativeOne:  # add another -1
+                    sign_u += 1""",
+         new="""        bra_ket_sym = sympify(bra_ket_sym)
+        if all(isinstance(s, Index) for s in upper+lower):
+            if bra_ket_sym not in [S.Zero, S.One, S.NegativeOne]:
+                raise Inputerror("Invalid bra ket symmetry given "
+                                 f"{bra_ket_sym}. Valid are 0, 1 or -1.")
+            if len(upper) == len(lower) and cls._need_bra_ket_swap(upper, lower):
+                upper, lower = lower, upper  # swap
+                if bra_ket_sym is S.NegativeOne:  # add another -1
+                    sign_u += 1"""),
+    dict(id="c06-sort-key-dropped", prop="C06", file=S, expect=["R06b", "R06c"],
+         old="            lower, sign_l = _sort_anticommuting_fermions(\n                lower, key=sort_idx_canonical\n            )",
+         new="            lower, sign_l = _sort_anticommuting_fermions(\n                lower, key=lambda s: s.name\n            )"),
+    dict(id="c06-delta-power-negative", prop="C06", file=S, expect="R06d",
+         old="        elif exp.is_negative and exp is not S.NegativeOne:\n            return 1/self", new="        elif exp.is_negative and exp is not S.NegativeOne:\n            return self"),
+    dict(id="c06-init-antisym-not-applied", prop="C06", file=E, expect="R06f",
+         old="        if self._sym_tensors or self._antisym_tensors:\n            if real:", new="        if self._sym_tensors:\n            if real:"),
+    dict(id="c06-setsym-real-dropped", prop="C06", file=E, expect="R06f",
+         old="        sym_tensors: set = set(sym_tensors)\n        if self.real:\n            sym_tensors.update([tensor_names.fock, tensor_names.eri])\n", new="        sym_tensors: set = set(sym_tensors)\n"),
+    dict(id="c06-setantisym-stale-apply", prop="C06", file=E, expect="R06f",
+         old="            self._antisym_tensors = antisym_tensors\n            self._apply_tensor_braket_sym()", new="            self._apply_tensor_braket_sym()\n            self._antisym_tensors = antisym_tensors"),
+    dict(id="c06-setsym-guard-type", prop="C06", file=E, expect="R06f",
+         old='        if not all(isinstance(t, str) for t in sym_tensors):\n            raise Inputerror("Symmetric tensors need to be provided as str.")\n', new=""),
+    dict(id="c06-term-wrapper-drops-assumptions", prop="C06", file=E, expect="R06e",
+         old="            return Expr(renamed, **self.assumptions)\n\n    def expand_antisym_eri(self, return_sympy: bool = False):\n        \"\"\"\n        Expands the antisymmetric ERI using chemists notation",
+         new="            return Expr(renamed)\n\n    def expand_antisym_eri(self, return_sympy: bool = False):\n        \"\"\"\n        Expands the antisymmetric ERI using chemists notation"),
+    dict(id="c06-obj-real-groups-exchanged", prop="C06", file=E, expect="R06e",
+         old="                    Amplitude(new, base.upper, base.lower, base.bra_ket_sym),", new="                    Amplitude(new, base.lower, base.upper, base.bra_ket_sym),"),
+    dict(id="c06-obj-rename-symmetry-lost", prop="C06", file=E, expect="R06e",
+         old="                args = (new, base.upper, base.lower, base.bra_ket_sym)", new="                args = (new, base.upper, base.lower)"),
+    dict(id="c06-obj-real-flag-not-set", prop="C06", file=E, expect="R06e",
+         old="        assumptions = self.assumptions\n        assumptions['real'] = True\n        return Expr(real_obj, **assumptions)", new="        return Expr(real_obj, **self.assumptions)"),
+    dict(id="c06-rename-guard", prop="C06", file=E, expect="R06e",
+         old="        if not isinstance(current, str) or not isinstance(new, str):\n            raise Inputerror(\"Old and new tensor name need to be provided as \"\n                             \"strings.\")\n        renamed = 0",
+         new="        renamed = 0"),
+    dict(id="c06-makereal-terms-before-symmetry", prop="C06", file=E, expect=["R06e", "R06f"], edits=[
+        ("        self._real = True\n        sym_tensors = self._sym_tensors\n", "        self._real = True\n        terms = self.terms\n        sym_tensors = self._sym_tensors\n"),
+        ("        self._expr = Add(*[t.make_real(return_sympy=True)\n                           for t in self.terms])", "        self._expr = Add(*[t.make_real(return_sympy=True)\n                           for t in terms])")]),
 ]
